@@ -611,3 +611,6 @@ func (c *Cluster) hDescribeGroups(b *Broker, r *Request, act *Action) map[string
 	}
 	return map[string]any{"Groups": out}
 }
+
+// GroupUnlocked returns the group; the caller holds the cluster lock (Lock/Unlock).
+func (c *Cluster) GroupUnlocked(id string) *Group { return c.groups[id] }
